@@ -161,7 +161,7 @@ opened('F-WSLINE', ['C02', 'C13'], 'a whitespace-only line inside a multi-line n
        {'C02': c02(s), 'C13': dict(string='a\n  \nb', arm='render')}, 'pydbml/renderer/dbml/default/note.py (textwrap.indent)', 'ws_only_line')
 sb = ASchema(tables=[T(cols=[AColumn('id', ('plain', 'int')), AColumn('v', ('plain', 'int'))])])
 sc = ASchema(tables=[T(cols=[AColumn('id', ('plain', 'int')), AColumn('v', ('plain', 'int'), comment='about v')])])
-opened('F-COLCOMMENT', ['C14'], "a column's comment is rendered above the column, where the table body skips comments, so it is lost when the DBML is parsed again",
+opened('F-COLCOMMENT', ['C14', 'C02'], "a column's comment is rendered above the column, where the table body skips comments, so it is lost when the DBML is parsed again",
        {'C14': dict(arm='capture', text='Table t {\n id int\n v int // about v\n}\n', schema=model.to_json(sb), commented=model.to_json(sc))},
        'pydbml/renderer/dbml/default/column.py:render_column', kind='local', pinned='test_renderer/test_dbml/test_column.py')
 s = ASchema(tables=[T('a', cols=[AColumn('id', ('plain', 'int'))]), T('b')])
